@@ -128,12 +128,30 @@ package codegen
 //@ trusted github.com/99designs/gqlgen/graphql.GetErrors(ctx) (errs)
 //@   nopanic
 //@   pure
+// (dg.Context is the non-nil context of the object being completed: WithValue/Value on it do not panic - the same
+// assumption the trusted contract of WithFreshResponseContext makes)
+//@ trusted context.WithValue(parent, key, val) (c)
+//@   nopanic
+//@   pure
+//@ trusted (context.Context).Value(key) (v)
+//@   nopanic
+//@   pure
 //@ family deferredgroup [C13,C05,C04]
+//@   replay nestedDefer.go.tmpl for Delivered
 //@   gosafe
 //@   at `send ec.deferredResults` requires val.Path == dg.Path && val.Label == dg.Label
 //@   at `send ec.deferredResults` requires calls(Dispatch) == 1 && (dg.FieldSet.Invalids > 0 ==> val.Result == graphql.Null)
 //@   goensures calls(send) == 1 && calls(Dispatch) == 1
 //@   ensures calls(AddInt32) == 1 && calls(spawn) == 1
+// C13 delivery order: a group nested in another deferred group is sent only after the enclosing group was (the
+// enclosing group's `delivered` channel travels in the context its fields are resolved with and is closed right
+// after its own send), so a payload never arrives before the payload that delivers the object it belongs to.
+//@   at! `dg.Context.Value(deferredGroupDeliveredKey{})` requires true
+//@   at! `context.WithValue(dg.Context, deferredGroupDeliveredKey{}, delivered)` requires calls(Dispatch) == 0
+//@   at! `recv parentDelivered` requires parentDelivered != nil && calls(send) == 0
+//@   at `send ec.deferredResults` requires parentDelivered == nil || calls(recv) == 1
+//@   at! `chanclose delivered` requires calls(send) == 1
+//@   goensures calls(chanclose) == 1
 
 // C16: the introspection constructors are only reachable through the gate functions, and the gate refuses when
 // introspection is disabled - whatever alias, fragment or variable the query used to reach __schema/__type.
